@@ -17,6 +17,10 @@ import PyramidModel.Lemmas.IntrospectSpec
    → {"outcome":…, "executed":[ids], "pending":[[id,[path],nIntrs]…], "reg":"ok"|"KeyError"|…, "state":VIEW}
    VIEW = [[c,[[d,v,info,[[c,d,v]…]]…]]…]  (= `categorized()`)
 
+`{"op":"history","base":STATE,"flag":b,"forwards":b,"commits":[{"tree":[STMT…],"auto":b}…]}` — several commits into the
+   same introspector (the state threads through); `auto` = an autocommit configurator: every action executes at once,
+   in declaration order, without conflict resolution.  → {"commits":[<as for "commit">…]} (stops after a failing one)
+
 `{"op":"spec"}` — the specification table of Lemmas/IntrospectSpec.lean as JSON (for the dynamic oracle's
    cross-check).
 -/
@@ -180,6 +184,31 @@ def specJ : Json :=
         | some vs => Json.arr (vs.map fun v => Json.arr #[v.1, strsJ v.2]).toArray
         | none => Json.null))]).toArray)]).toArray
 
+/-- one commit: (reply, state afterwards when it completed) -/
+def commitOnce (S : IState) (flag forwards auto : Bool) (tree : List Stmt) : Json × Option IState :=
+  let ps := flattenL forwards flag [] tree
+  let top : List Pyr.Actions.Act := ps.map fun p =>
+    { id := p.id, disc := (match p.disc with | some d => .val d | none => .none), order := p.order, path := p.path }
+  let (oc, executed) := if auto then (Pyr.Actions.Outcome.ok, ps.map (·.id))
+                        else Pyr.Actions.run Pyr.Actions.noKids (2 * ps.length + 4) top
+  let pendJ := Json.arr (ps.map fun p => Json.arr #[toJson p.id, toJson p.path, toJson p.intrs.length]).toArray
+  match oc with
+  | .ok =>
+    match registerAll (declsOf ps) executed S with
+    | .ok S' => (Json.mkObj [("outcome", "ok"), ("executed", toJson executed), ("pending", pendJ),
+                             ("reg", "ok"), ("state", viewJ S')], some S')
+    | .error e => (Json.mkObj [("outcome", "ok"), ("executed", toJson executed), ("pending", pendJ),
+                               ("reg", errJ e), ("state", Json.null)], none)
+  | oc => (Json.mkObj [("outcome", outcomeJ oc), ("executed", toJson executed), ("pending", pendJ),
+                       ("reg", Json.null), ("state", Json.null)], none)
+
+def runHistory (flag forwards : Bool) : IState → List (Bool × List Stmt) → List Json
+  | _, [] => []
+  | S, (auto, tree) :: r =>
+    match commitOnce S flag forwards auto tree with
+    | (j, some S') => j :: runHistory flag forwards S' r
+    | (j, none) => [j]
+
 def main : IO Unit := jsonDriver fun j => do
   let op : String ← getAs j "op"
   match op with
@@ -212,5 +241,20 @@ def main : IO Unit := jsonDriver fun j => do
                                        ("reg", errJ e), ("state", Json.null)]
     | oc => return Json.mkObj [("outcome", outcomeJ oc), ("executed", toJson executed), ("pending", pendJ),
                                ("reg", Json.null), ("state", Json.null)]
+  | "history" =>
+    let base ← parseState (← getField j "base")
+    let flag : Bool ← getAs j "flag"
+    let forwards : Bool ← getAs j "forwards"
+    let cj ← getField j "commits"
+    let commits ← match cj with
+      | .arr xs => xs.toList.mapM fun c => do
+        let auto : Bool ← getAs c "auto"
+        let tj ← getField c "tree"
+        let tree ← match tj with
+          | .arr ys => ys.toList.mapM parseStmt
+          | _ => throw "bad tree"
+        pure (auto, tree)
+      | _ => throw "bad commits"
+    return Json.mkObj [("commits", Json.arr (runHistory flag forwards base commits).toArray)]
   | "spec" => return specJ
   | _ => throw s!"unknown op {op}"
